@@ -927,6 +927,18 @@ class Tract:
             # Unpack the appropriate attributes.
             for attribute in parser.UNPACKABLES:
                 setattr(self, attribute, getattr(parser, attribute))
+            # Remember which flags this parse generated (as opposed to
+            # those handed down by a parent PLSSDesc), so that a later
+            # parse replaces them instead of accumulating duplicates.
+            flag_attributes = ('w_flags', 'w_flag_lines', 'e_flags', 'e_flag_lines')
+            generated = []
+            for att, n in zip(flag_attributes, parser.n_inherited_flags):
+                flags = getattr(parser, att)
+                generated.append(flags[n:])
+                # Same order as after the first parse: this parse's own
+                # flags, then those handed down by the parent.
+                setattr(self, att, flags[n:] + flags[:n])
+            self._parse_generated_flags = tuple(generated)
 
             # Pull the preprocessed text from the parser.
             self.pp_desc = parser.text
